@@ -510,6 +510,16 @@ package kv
 //@ assert at call readASCIILong#0: key == "__oxia/last-version-id"
 //@ modifies *
 
+// What a read of the stored notification batches gives (a key-ordered scan from the
+// key of startOffset, keys being the fixed-width hexadecimal offsets): batches at or
+// after startOffset, in strictly increasing offset order.
+//@ func DB.ReadNextNotifications(recv, ctx, startOffset) (res, err)
+//@ trusted
+//@ modifies nothing
+//@ ensures err == nil ==> forall i int :: 0 <= i && i < len(res) ==> res[i] != nil && res[i].Offset >= startOffset && res[i].Offset < 4611686018427387904
+//@ note scope: offsets stay below 2^62 (a log position; machine-arithmetic wrap-around of offset+1 is outside the scope)
+//@ ensures err == nil ==> forall i int, j int :: 0 <= i && i < j && j < len(res) ==> res[i].Offset < res[j].Offset
+
 //@ func DB.ReadCommitOffset
 //@ trusted
 //@ modifies nothing
